@@ -18,7 +18,7 @@ PREEMPTION = "0.05"
 # (cases, seeds per case) per tier; the case number selects limit / mode / thread count / senders
 PLAN = {
     "quick": {"C18": (list(range(8)), 24), "C19": ([1, 3, 5, 7, 9, 11, 13, 19], 24), "C20": ([0, 1, 2, 4, 8, 10, 14, 22, 27], 24)},
-    "thorough": {"C18": (list(range(8)), 768), "C19": (list(range(24)), 384), "C20": (list(range(36)), 256)},
+    "thorough": {"C18": (list(range(8)), 512), "C19": (list(range(24)), 256), "C20": (list(range(36)), 256)},
 }
 
 
